@@ -12,6 +12,7 @@
 package main
 
 import (
+	"fmt"
 	"sort"
 	"strconv"
 	"strings"
@@ -69,10 +70,6 @@ func intsOf(v string) []string { // "is:1,2,3"
 // adapt rewrites the generic dump into the record shape of the model's layout for this type
 func adapt(c *Case, kvs []KV, post bool) []KV {
 	switch modelName(c) {
-	case "EventPack":
-		if !post {
-			return eventFold(kvs)
-		}
 	case "TransactionRec": // the version is a parameter of WriteTransactionRec
 		if i := strings.Index(c.Type, "/v"); i >= 0 && !post {
 			return append(append([]KV{}, kvs...), KV{Path: "$version", Val: "i:" + c.Type[i+2:]})
@@ -143,59 +140,6 @@ func tableRecord(kvs []KV) string {
 		parts = append(parts, p+".val="+v)
 	}
 	return strings.Join(parts, ";")
-}
-
-// eventFold mirrors EventPack.Write's folding of uuid/escalation/status/otype into the attribute
-// table (the model's EventPack layout describes the table as it is on the wire)
-func eventFold(kvs []KV) []KV {
-	get := func(p string) string {
-		for _, kv := range kvs {
-			if kv.Path == p {
-				return kv.Val
-			}
-		}
-		return ""
-	}
-	type ent struct{ k, v string }
-	var attrs []ent
-	n, _ := strconv.Atoi(strings.TrimPrefix(get("Attr#"), "i:"))
-	for i := 0; i < n; i++ {
-		attrs = append(attrs, ent{get("Attr[" + strconv.Itoa(i) + "].key"), get("Attr[" + strconv.Itoa(i) + "].val")})
-	}
-	put := func(k, v string) {
-		hk := "b:" + hexOf([]byte(k))
-		hv := "b:" + hexOf([]byte(v))
-		for i := range attrs {
-			if attrs[i].k == hk {
-				attrs[i].v = hv
-				return
-			}
-		}
-		attrs = append(attrs, ent{hk, hv})
-	}
-	if u := get("Uuid"); u != "b:-" && u != "" {
-		attrs2 := vh.UnHex(strings.TrimPrefix(u, "b:"))
-		put("_uuid_", string(attrs2))
-	}
-	if get("Escalation") == "i:1" {
-		put("_esca_", "true")
-	} else {
-		put("_esca_", "false")
-	}
-	put("_status_", strings.TrimPrefix(get("Status"), "i:"))
-	put("_otype_", strings.TrimPrefix(get("Otype"), "i:"))
-	var out []KV
-	for _, kv := range kvs {
-		if strings.HasPrefix(kv.Path, "Attr") {
-			continue
-		}
-		out = append(out, kv)
-	}
-	out = append(out, KV{Path: "Attr#", Val: "i:" + strconv.Itoa(len(attrs))})
-	for i, a := range attrs {
-		out = append(out, KV{Path: "Attr[" + strconv.Itoa(i) + "].key", Val: a.k}, KV{Path: "Attr[" + strconv.Itoa(i) + "].val", Val: a.v})
-	}
-	return out
 }
 
 func mapCount(v string) int { // "v:map,<n>,…"
@@ -292,6 +236,26 @@ func driverChecksImpl(env *vh.Env, rep *vh.Report, cases []*Case) {
 			continue
 		}
 		mn := modelName(c)
+		if mn == "CompositePack" {
+			// the pack tree model (Packs.Tree.readPT): decode the type-tagged bytes, compare the tree
+			if perType[c.Type] >= limit || len(c.Bytes) > 200000 {
+				continue
+			}
+			skip := false
+			for _, kv := range c.Post {
+				if strings.HasSuffix(kv.Path, "!") && !codeHasLayout(have, kv.Val) {
+					skip = true
+				}
+			}
+			if skip {
+				rep.Count("model:tree:inner-without-layout")
+				continue
+			}
+			perType[c.Type]++
+			reqs = append(reqs, req{c, 'C', c.Bytes})
+			lines = append(lines, "C "+vh.Hex(c.Bytes))
+			continue
+		}
 		if !have[mn] {
 			rep.Count("model:no-layout:" + mn)
 			continue
@@ -303,6 +267,14 @@ func driverChecksImpl(env *vh.Env, rep *vh.Report, cases []*Case) {
 		body := c.Bytes
 		if c.sp.class != clsElement {
 			body = body[2:] // the type tag is WritePack's, not the body's
+		}
+		if mn == "EventPack" {
+			// Packs.Event.fold / unfold: stage 1 asks the model for the folded table and for the wire table
+			reqs = append(reqs, req{c, 'F', body})
+			lines = append(lines, "EF "+rawRecord(c.Pre))
+			reqs = append(reqs, req{c, 'D', body})
+			lines = append(lines, "D "+mn+" "+vh.Hex(body))
+			continue
 		}
 		if !encodeSkipped(c) {
 			reqs = append(reqs, req{c, 'E', body})
@@ -326,10 +298,127 @@ func driverChecksImpl(env *vh.Env, rep *vh.Report, cases []*Case) {
 		rep.Fail("correspondence", "driver:unusable", "the Lean driver could not be run: "+vh.Clip(err.Error(), 300), nil)
 		return
 	}
+	// stage 2 (EventPack): encode with the model's folded table; unfold the model's wire table
+	var reqs2 []req
+	var lines2 []string
+	for i, rq := range reqs {
+		if rq.kind == 'F' && strings.HasPrefix(outs[i], "Attr#=") {
+			var keep []string
+			for _, kv := range rq.c.Pre {
+				if !strings.HasPrefix(kv.Path, "Attr") && kv.Path != "" {
+					keep = append(keep, kv.Path+"="+kv.Val)
+				}
+			}
+			reqs2 = append(reqs2, req{rq.c, 'E', rq.body})
+			lines2 = append(lines2, "E EventPack "+strings.Join(keep, ";")+";"+outs[i])
+		}
+		if rq.kind == 'D' && modelName(rq.c) == "EventPack" && strings.HasPrefix(outs[i], "ok ") {
+			parts := strings.Split(outs[i], " ")
+			var attrs []string
+			for _, kv := range strings.Split(parts[1], ";") {
+				if strings.HasPrefix(kv, "Attr") {
+					attrs = append(attrs, kv)
+				}
+			}
+			reqs2 = append(reqs2, req{rq.c, 'U', rq.body})
+			lines2 = append(lines2, "EU "+strings.Join(attrs, ";"))
+		}
+	}
+	if len(lines2) > 0 {
+		outs2, err := vh.RunDriver(env.Driver, lines2)
+		if err != nil {
+			rep.Fail("correspondence", "driver:unusable", "the Lean driver could not be run: "+vh.Clip(err.Error(), 300), nil)
+			return
+		}
+		for i, rq := range reqs2 {
+			c, o := rq.c, outs2[i]
+			switch rq.kind {
+			case 'E':
+				rep.Count("model:event-fold")
+				if o != vh.Hex(rq.body) {
+					rep.Fail("correspondence", "EventPack.Write:model-fold-differs",
+						"EventPack.Write does not put on the wire the attribute table the model's folding (Packs.Event.fold) gives: "+diffBytes(rq.body, vh.UnHex(safeHex(o))),
+						map[string]interface{}{"type": c.Type, "fields": vh.Clip(rawRecord(c.Pre), 20000), "go_bytes": vh.Clip(vh.Hex(rq.body), 20000), "model": vh.Clip(o, 20000)})
+				}
+			case 'U':
+				rep.Count("model:event-unfold")
+				got := parseOut(o)
+				post := map[string]string{}
+				for _, kv := range c.Post {
+					post[kv.Path] = kv.Val
+				}
+				for _, k := range sortedKeys(got) {
+					if want, ok := post[k]; !ok || want != got[k] {
+						rep.Fail("correspondence", "EventPack.Read:model-unfold-differs",
+							"field "+k+": the model's unfolding (Packs.Event.unfold) gives "+vh.Clip(got[k], 120)+", EventPack.Read stored "+vh.Clip(want, 120),
+							map[string]interface{}{"type": c.Type, "path": k, "bytes": vh.Clip(vh.Hex(rq.body), 20000)})
+						break
+					}
+				}
+			}
+		}
+	}
 	for i, rq := range reqs {
 		c, o := rq.c, outs[i]
 		mn := modelName(c)
 		switch rq.kind {
+		case 'F':
+			if !strings.HasPrefix(o, "Attr#=") {
+				rep.Fail("correspondence", "driver:unusable", "unexpected answer to EF: "+vh.Clip(o, 200), nil)
+			}
+		case 'C':
+			rep.Count("model:tree")
+			if !strings.HasPrefix(o, "ok ") {
+				rep.Fail("correspondence", "CompositePack:model-decode-fails", "the pack-tree model (Packs.Tree.readPT) rejects bytes that ReadPack accepts: "+o,
+					map[string]interface{}{"type": c.Type, "bytes": vh.Clip(vh.Hex(rq.body), 20000)})
+				continue
+			}
+			parts := strings.Split(o, " ")
+			if len(parts) != 3 || parts[2] != "0" {
+				rep.Fail("correspondence", "CompositePack:model-leftover", "the pack-tree model leaves bytes that ReadPack consumes: "+vh.Clip(o, 100),
+					map[string]interface{}{"type": c.Type, "bytes": vh.Clip(vh.Hex(rq.body), 20000)})
+				continue
+			}
+			got := parseOut(parts[1])
+			post := map[string]string{}
+			for _, kv := range c.Post {
+				post[kv.Path] = kv.Val
+			}
+			// shape: every count and every type code the model delivers must be the dump's; fields are
+			// compared where both name them (per-type adaptations are checked by the per-type D lines)
+			for _, k := range sortedKeys(got) {
+				want, ok := post[k]
+				structural := strings.HasSuffix(k, "pack#") || strings.HasSuffix(k, "!")
+				if !ok {
+					if structural {
+						rep.Fail("correspondence", "CompositePack:model-shape-differs", "the model's tree has "+k+"="+got[k]+" which the decoded CompositePack does not have",
+							map[string]interface{}{"type": c.Type, "path": k, "bytes": vh.Clip(vh.Hex(rq.body), 20000)})
+						break
+					}
+					continue
+				}
+				if strings.HasSuffix(k, "?") || (strings.HasSuffix(k, "#") && !structural) || strings.Contains(k, ".Attr") ||
+					strings.Contains(k, "DbNum") || strings.Contains(k, "SqlMap[") || strings.Contains(k, "HttpcMap[") {
+					continue
+				}
+				if want != got[k] {
+					rep.Fail("correspondence", "CompositePack:model-field-differs", "field "+k+": the pack-tree model delivers "+vh.Clip(got[k], 120)+", Go's reader stored "+vh.Clip(want, 120),
+						map[string]interface{}{"type": c.Type, "path": k, "bytes": vh.Clip(vh.Hex(rq.body), 20000)})
+					break
+				}
+			}
+			n := 0
+			for k := range post {
+				if strings.HasSuffix(k, "pack#") || strings.HasSuffix(k, "!") {
+					if _, ok := got[k]; !ok {
+						n++
+					}
+				}
+			}
+			if n > 0 {
+				rep.Fail("correspondence", "CompositePack:model-shape-differs", fmt.Sprintf("%d counts / type codes of the decoded CompositePack are missing in the model's tree", n),
+					map[string]interface{}{"type": c.Type, "bytes": vh.Clip(vh.Hex(rq.body), 20000)})
+			}
 		case 'T':
 			rep.Count("model:table")
 			if o != vh.Hex(rq.body) {
@@ -422,4 +511,40 @@ func safeHex(s string) string {
 		}
 	}
 	return s
+}
+
+func sortedKeys(m map[string]string) []string {
+	ks := make([]string, 0, len(m))
+	for k := range m {
+		ks = append(ks, k)
+	}
+	sort.Strings(ks)
+	return ks
+}
+
+// rawRecord: the dump as a record, unadapted
+func rawRecord(kvs []KV) string {
+	var parts []string
+	for _, kv := range kvs {
+		if kv.Path == "" || strings.ContainsAny(kv.Path, " ;=") || strings.HasPrefix(kv.Val, "?:") {
+			continue
+		}
+		parts = append(parts, kv.Path+"="+kv.Val)
+	}
+	if len(parts) == 0 {
+		return "-"
+	}
+	return strings.Join(parts, ";")
+}
+
+// type codes of the registered packs and the model type each has (for the pack-tree comparison)
+var codeType = map[string]string{"i:256": "ParamPack", "i:513": "CounterPack1", "i:768": "ProfilePack", "i:1025": "ActiveStackPack",
+	"i:1792": "TextPack", "i:2049": "ErrorSnapPack1", "i:3840": "RealtimeUserPack", "i:2304": "StatServicePack", "i:2320": "StatGeneralPack",
+	"i:2560": "StatSqlPack", "i:2816": "StatHttpcPack", "i:3072": "StatErrorPack", "i:4352": "StatRemoteIpPack", "i:4608": "StatUserAgentPack",
+	"i:5120": "EventPack", "i:5377": "HitMapPack1", "i:5632": "ExtensionPack", "i:5633": "TagCountPack", "i:5634": "TagLogPack",
+	"i:5888": "CompositePack", "i:5898": "LogSinkPack", "i:5899": "ZipPack", "i:5901": "LogSinkZipPack", "i:25856": "ServerInfoPack"}
+
+func codeHasLayout(have map[string]bool, code string) bool {
+	t, ok := codeType[code]
+	return ok && (t == "CompositePack" || have[t])
 }
